@@ -34,3 +34,17 @@ def c19_shipped_duplicates(v):
         return False
     allowed = {("formula", "Cl2"), ("smiles", "ClCl"), ("smiles", "N")}
     return {tuple(d) for d in v.get("duplicates", [])} <= allowed
+
+
+def c16_tree_unrolling(v):
+    """the hand-written matcher unrolls the pattern as a tree: a ring pattern matches without its
+    ring-closing bond, and two branches of an acyclic pattern may land on the same atom.  Anything
+    else (wrong element, wrong bond type on a chain bond, missed occurrence, numbering dependence)
+    is not this finding."""
+    if v.get("kind") != "positive_match_without_real_occurrence":
+        return False
+    d = set(v.get("defects", []))
+    if v.get("pattern_has_ring"):
+        return bool(d) and not (d & {"element_mismatch", "chain_bond_missing", "chain_bond_type_mismatch",
+                                     "anchor_not_in_match"})
+    return d == {"not_injective"}
